@@ -83,7 +83,7 @@ fn tn_grid(tier: Tier) -> (Vec<(usize, usize)>, Vec<(usize, usize)>) {
     let big = if tier.thorough() {
         vec![(2, 255), (3, 255), (128, 255), (254, 255), (255, 255), (2, 100), (50, 100)]
     } else {
-        vec![(2, 255), (255, 255), (2, 254), (3, 128)]
+        vec![(2, 255), (255, 255), (2, 254), (3, 128), (65, 70), (33, 40)]
     };
     (small, big)
 }
@@ -474,6 +474,8 @@ impl<C: Suite> Model for M08<C> {
                 // in the root state of each instance: the i x j verification matrix and share well-formedness
                 if seq.is_empty() && fault.is_none() {
                     let n = it.n;
+                    expect_ct_move(o, "C08", &format!("SignatureShare<{}>", g), &it.sigs[0], &it.sigs[1]);
+                    expect_ct_move(o, "C08", &format!("PublicKeyShare<{}>", g), &it.pks[0], &it.pks[1]);
                     let ids: Vec<u8> = it.shares.iter().map(share_id).collect();
                     let mut sorted = ids.clone();
                     sorted.sort();
